@@ -61,8 +61,12 @@ def gen_task(rng, kind, nmax=24, props=()):
     if kind == "ode":
         nt, bt = _n_b(rng, nmax)
         tmin, tmax = _box(rng, exact)
-        return {"kind": kind, "key": key, "nt": nt, "bt": bt, "tmin": tmin, "tmax": tmax,
+        spec = {"kind": kind, "key": key, "nt": nt, "bt": bt, "tmin": tmin, "tmax": tmax,
                 "method": "grid" if rng.random() < 0.3 else "uniform"}
+        if rng.random() < 0.15 and nt > 1:
+            # legal and documented as ignored: nt_start given although no refinement is requested
+            spec["nt_start_given"] = rng.randint(1, nt - 1)
+        return spec
     if kind in ("statio", "nonstatio"):
         dim = rng.choice([1, 2])
         method = "grid" if rng.random() < 0.3 else "uniform"
@@ -97,6 +101,11 @@ def gen_task(rng, kind, nmax=24, props=()):
                 if dim == 2 and spec["bb"] is not None:
                     nbf = max(spec["nb"] // 4, b)
                     spec["nb"], spec["bb"] = 4 * nbf, b
+        if rng.random() < 0.15 and spec["n"] > 1:
+            # legal and documented as ignored without refinement
+            spec["n_start_given"] = rng.randint(1, spec["n"] - 1)
+            if kind == "nonstatio" and spec["nt"] > 1:
+                spec["nt_start_given"] = rng.randint(1, spec["nt"] - 1)
         return spec
     if kind == "obs":
         n, b = _n_b(rng, nmax)
@@ -117,9 +126,12 @@ def gen_task(rng, kind, nmax=24, props=()):
                 ranges[nm] = [10.0 * i, 10.0 * i + w]
             if mode in ("user", "both"):
                 user[nm] = rng.choice(["n", "n1"])  # shape (n,) or (n, 1)
+        order = list(names)
+        rng.shuffle(order)
         return {"kind": kind, "key": key, "n": n, "b": b, "ranges": ranges, "user": user,
                 "method": "grid" if rng.random() < 0.25 else "uniform",
-                "keys_as_dict": rng.random() < 0.8}
+                "keys_as_dict": rng.random() < 0.8,
+                "keys_order": order}  # insertion order of the user's dict of PRNG keys (any order is legal)
     if kind == "obsmulti":
         b = rng.randint(1, 4)
         nets = []
@@ -132,7 +144,15 @@ def gen_task(rng, kind, nmax=24, props=()):
                              "params": rng.sample(["nu", "theta"], rng.randint(0, 1))})
         if all(x is None for x in nets):
             nets[0] = {"n": rng.randint(b, nmax), "in_dim": 1, "val_dim": 1, "params": []}
-        return {"kind": kind, "key": key, "b": b, "nets": nets}
+        real = [x for x in nets if x is not None]
+        if len(real) >= 2 and rng.random() < 0.5:
+            for x in real[1:]:  # same table shapes for all networks: a mix-up between networks cannot raise
+                x["n"], x["val_dim"], x["params"] = real[0]["n"], real[0]["val_dim"], list(real[0]["params"])
+        order_v = list(range(len(nets)))
+        order_p = list(range(len(nets)))
+        rng.shuffle(order_v)
+        rng.shuffle(order_p)
+        return {"kind": kind, "key": key, "b": b, "nets": nets, "order_values": order_v, "order_params": order_p}
     raise HarnessError(f"unknown kind {kind}")
 
 
@@ -213,19 +233,21 @@ def build_task(spec):
     k = spec["kind"]
     key = jax.random.PRNGKey(spec["key"])
     if k == "ode":
-        return jinns.data.DataGeneratorODE(key, spec["nt"], spec["tmin"], spec["tmax"], spec["bt"], method=spec["method"])
+        return jinns.data.DataGeneratorODE(key, spec["nt"], spec["tmin"], spec["tmax"], spec["bt"], method=spec["method"],
+                                           nt_start=spec.get("nt_start_given"))
     if k == "statio":
         return jinns.data.CubicMeshPDEStatio(
             key=key, n=spec["n"], nb=spec["nb"], omega_batch_size=spec["bo"],
             omega_border_batch_size=spec["bb"], dim=spec["dim"],
-            min_pts=tuple(spec["min_pts"]), max_pts=tuple(spec["max_pts"]), method=spec["method"])
+            min_pts=tuple(spec["min_pts"]), max_pts=tuple(spec["max_pts"]), method=spec["method"],
+            n_start=spec.get("n_start_given"))
     if k == "nonstatio":
         return jinns.data.CubicMeshPDENonStatio(
             key=key, n=spec["n"], nb=spec["nb"], nt=spec["nt"], omega_batch_size=spec["bo"],
             omega_border_batch_size=spec["bb"], temporal_batch_size=spec["bt"], dim=spec["dim"],
             min_pts=tuple(spec["min_pts"]), max_pts=tuple(spec["max_pts"]),
             tmin=spec["tmin"], tmax=spec["tmax"], method=spec["method"],
-            cartesian_product=spec["cartesian"])
+            cartesian_product=spec["cartesian"], n_start=spec.get("n_start_given"), nt_start=spec.get("nt_start_given"))
     if k == "obs":
         pin, val, eq = obs_tables(spec["n"], spec["in_dim"], spec["val_dim"], spec["params"], spec.get("param_1d", True))
         return jinns.data.DataGeneratorObservations(
@@ -239,7 +261,9 @@ def build_task(spec):
         names = sorted(set(spec["ranges"]) | set(spec["user"]))
         if spec.get("keys_as_dict", True):
             ks = jax.random.split(key, len(names))
-            keys = {nm: ks[i] for i, nm in enumerate(names)}
+            by_name = {nm: ks[i] for i, nm in enumerate(names)}
+            order = [nm for nm in spec.get("keys_order", names) if nm in by_name] or names
+            keys = {nm: by_name[nm] for nm in order}
         else:
             keys = key
         return jinns.data.DataGeneratorParameter(
@@ -256,6 +280,10 @@ def build_task(spec):
                 pin, val, eq = obs_tables(net["n"], net["in_dim"], net["val_dim"], net["params"], off=i * NET_OFF)
                 pins[name], vals[name] = jnp.asarray(pin), jnp.asarray(val)
                 eqs[name] = {a: jnp.asarray(v) for a, v in eq.items()}
+        # the three user dicts may be written in different key orders
+        names_ = list(pins.keys())
+        vals = {names_[i]: vals[names_[i]] for i in spec.get("order_values", range(len(names_)))}
+        eqs = {names_[i]: eqs[names_[i]] for i in spec.get("order_params", range(len(names_)))}
         return jinns.data.DataGeneratorObservationsMultiPINNs(
             spec["b"], pins, vals, observed_eq_params_dict=eqs, key=key)
     raise HarnessError(f"unknown kind {k}")
